@@ -27,6 +27,10 @@ pub mod c15;
 pub mod c17;
 pub mod c18;
 pub mod c20;
+pub mod c11;
+pub mod c25;
+pub mod c28;
+pub mod c29;
 pub mod util;
 
 pub type RunFn = fn(&mut Ctx);
@@ -57,6 +61,10 @@ pub const REGISTRY: &[(&str, RunFn, ReplayFn)] = &[
     ("C17", c17::run, c17::replay),
     ("C18", c18::run, c18::replay),
     ("C20", c20::run, c20::replay),
+    ("C11", c11::run, c11::replay),
+    ("C25", c25::run, c25::replay),
+    ("C28", c28::run, c28::replay),
+    ("C29", c29::run, c29::replay),
 ];
 
 pub fn find(id: &str) -> Option<(RunFn, ReplayFn)> {
